@@ -262,6 +262,10 @@ def identical(interp, a, b):
 
 def equal(interp, a, b):
     ctx = interp.ctx
+    if interp.policy is not None and (isinstance(a, Opaque) or isinstance(b, Opaque)):
+        r = interp.policy.equal_opaque(interp, a, b)
+        if r is not PROCEED:
+            return r
     if isinstance(a, TagName) or isinstance(b, TagName):
         tn, other = (a, b) if isinstance(a, TagName) else (b, a)
         if isinstance(other, str):
@@ -400,6 +404,10 @@ def _member(interp, item, elems):
 
 def getitem(interp, v, idx):
     ctx = interp.ctx
+    if interp.policy is not None and z3.is_expr(idx) and isinstance(v, Obj) and ctx.data(v).kind == 'dict':
+        r = interp.policy.getitem(interp, v, idx)
+        if r is not PROCEED:
+            return r
     if isinstance(v, Obj):
         d = ctx.data(v)
         if d.kind == 'dict':
